@@ -6,6 +6,7 @@ import (
 	"context"
 	"fmt"
 	"os/exec"
+	"sync"
 	"syscall"
 	"time"
 
@@ -13,6 +14,13 @@ import (
 )
 
 func createExecHandler(killTimeout time.Duration) interp.ExecHandlerFunc {
+	// Process groups of earlier commands of this task that returned while one of their processes was still alive
+	// (a script can leave a background process behind). They are signaled on cancel like every other group.
+	var (
+		leftoverMx sync.Mutex
+		leftover   []int
+	)
+
 	return func(ctx context.Context, args []string) error {
 		hc := interp.HandlerCtx(ctx)
 		path, err := interp.LookPathDir(hc.Dir, hc.Env, args[0])
@@ -58,6 +66,23 @@ func createExecHandler(killTimeout time.Duration) interp.ExecHandlerFunc {
 			}
 
 			err = cmd.Wait()
+
+			// A canceled command is only finished when no process of its group (and of the groups earlier commands
+			// left behind) is alive anymore: processes that ignore the interrupt and do not hold the output of the
+			// task would otherwise outlive the job until the kill timeout has passed.
+			pgid := cmd.Process.Pid
+			leftoverMx.Lock()
+			if ctx.Err() != nil {
+				groups := append(leftover, pgid)
+				leftover = nil
+				leftoverMx.Unlock()
+				waitForProcessGroups(groups, killTimeout)
+			} else {
+				if processGroupAlive(pgid) {
+					leftover = append(leftover, pgid)
+				}
+				leftoverMx.Unlock()
+			}
 		}
 
 		switch x := err.(type) {
@@ -80,5 +105,38 @@ func createExecHandler(killTimeout time.Duration) interp.ExecHandlerFunc {
 		default:
 			return err
 		}
+	}
+}
+
+// processGroupAlive reports whether a process of the given process group still exists
+func processGroupAlive(pgid int) bool {
+	return syscall.Kill(-pgid, 0) != syscall.ESRCH
+}
+
+// waitForProcessGroups waits until no process of the given groups is left. The groups have been sent an interrupt
+// and are killed after killTimeout by the cancel handling of their command, so this takes at most killTimeout plus a
+// grace period for the processes to disappear; whatever is left then is killed once more.
+func waitForProcessGroups(pgids []int, killTimeout time.Duration) {
+	if killTimeout < 0 {
+		killTimeout = 0
+	}
+	deadline := time.Now().Add(killTimeout + time.Second)
+	for {
+		alive := false
+		for _, pgid := range pgids {
+			if processGroupAlive(pgid) {
+				alive = true
+			}
+		}
+		if !alive {
+			return
+		}
+		if time.Now().After(deadline) {
+			for _, pgid := range pgids {
+				_ = syscall.Kill(-pgid, syscall.SIGKILL)
+			}
+			return
+		}
+		time.Sleep(5 * time.Millisecond)
 	}
 }
